@@ -2,6 +2,7 @@ import DeepModel.Props.C15
 #print axioms C15.c15_partial
 #print axioms C15.c15_lifo
 #print axioms C15.c15_after_trigger
+#print axioms C15.c15_completion_config_independent
 #print axioms C15.c15_recursion_witness
 #print axioms C15.c15_stacked_witness
 #print axioms C15.c15_capture_kind
